@@ -176,10 +176,6 @@ RV_<G_<NFT_, TC_, Manual, TRO_ HFSM2_IF_UTILITY_THEORY(, TR_, TU_, TG_), NSL_ HF
 
 	HFSM2_ASSERT(_core.requests.empty());
 
-#if HFSM2_PLANS_AVAILABLE()
-	HFSM2_ASSERT(_core.planData.empty() == 0);
-#endif
-
 #if HFSM2_TRANSITION_HISTORY_AVAILABLE()
 	HFSM2_ASSERT(_core.transitionTargets  .empty());
 	HFSM2_ASSERT(_core.previousTransitions.empty());
